@@ -21,6 +21,7 @@ from ..errors import EvalError
 import os
 import sys
 import types
+import ast
 import hashlib
 
 
@@ -98,14 +99,21 @@ class EvalNode(ConfigScalar(str)):
         gbls.update(ctx.get_eval_symbols())
         gbls.update({ '__name__': eval_module_name, '__file__': self._source_file })
 
-        lines = self.strip().split('\n')
-        lines = [lline for line in lines for lline in line.split(';')]
-        exec_lines = "\n".join(lines[:-1])
-        eval_line = lines[-1].strip()
+        source = self.strip()
+        lines = source.split('\n')
         filename = self._source_file if self._source_file is not None else '<awesomeyaml !eval node>'
         try:
-            exec_code = compile(exec_lines, filename, 'exec')
-            eval_code = compile(eval_line, filename, 'eval')
+            # everything but the last statement is executed, the last one is evaluated - statements are told apart by
+            # python itself (a ';' inside a string literal or after an indented statement does not start a new line of ours)
+            tree = ast.parse(source, filename, 'exec')
+            last = tree.body.pop() if tree.body else None
+            if not isinstance(last, ast.Expr):
+                # not something that has a value: let python say so, as it does for a single-line node
+                compile(ast.get_source_segment(source, last) if last is not None else '', filename, 'eval')
+                raise SyntaxError('the last statement of an !eval node has to be an expression')
+            has_exec_part = bool(tree.body)
+            exec_code = compile(tree, filename, 'exec')
+            eval_code = compile(ast.Expression(last.value), filename, 'eval')
             exec(exec_code, gbls)
             ret = eval(eval_code, gbls)
         except EvalError as e:
@@ -119,7 +127,7 @@ class EvalNode(ConfigScalar(str)):
             code = f'=== CODE BEGINS ===\n{os.linesep.join(lines)}\n=== CODE ENDS ==='
             raise EvalError('The above exception occurred in the user code.', self, path, note=code) from e
 
-        if len(lines) > 1 and self.persistent_namespace:
+        if has_exec_part and self.persistent_namespace:
             # expose what the code defined under an importable name (e.g., to make functions picklable),
             # the module only mirrors the namespace of the latest evaluation and is never evaluated in
             eval_node_module = types.ModuleType(eval_module_name, 'Dynamic module to evaluate awesomeyaml !eval node')
